@@ -1634,6 +1634,11 @@ impl Tree {
 		// again by the restored one: nothing cached under them may survive.
 		self.core.inner.opts.block_cache.clear();
 
+		// The value-log directory has been replaced as well.
+		if let Some(ref vlog) = self.core.inner.vlog {
+			vlog.reload()?;
+		}
+
 		// Create a new LevelManifest from the current path
 		let new_levels = LevelManifest::new(Arc::clone(&self.core.inner.opts))?;
 
